@@ -571,7 +571,8 @@ def exBits : StructDef :=
         { name := "c", anon := false, cond := .const (.bool true),
           kind := .phys (.const (.int 4)) (.const (.int 4)) (.scalar .int 4 none) .null } ] }
 
-/-- `struct In(p: UInt:8): 0 [+1] UInt k / 1 [+1] Bf fl / let s = k + p / let cc = fl.c` -/
+/-- `struct In(p: UInt:8): 0 [+1] UInt k / 1 [+1] Bf fl / let s = k + p / let cc = fl.c / let one = 1 /
+`$size_in_bytes = ⟨2⟩ $max(0, true ? 0+1 : 0, true ? 1+1 : 0)` (annotated by the compiler) -/
 def exInner : StructDef :=
   { name := "In", unit := 8, params := ["p"], requires := none, sizeField := "$size",
     fields :=
@@ -582,7 +583,12 @@ def exInner : StructDef :=
         { name := "s", anon := false, cond := .const (.bool true),
           kind := .virt (.op .add (.cons (.ref ["k"]) (.cons (.param "p") .nil))) none },
         { name := "cc", anon := false, cond := .const (.bool true), kind := .alias ["fl", "c"] },
-        { name := "one", anon := false, cond := .const (.bool true), kind := .virt (.const (.int 1)) none } ] }
+        { name := "one", anon := false, cond := .const (.bool true), kind := .virt (.const (.int 1)) none },
+        -- the compiler's annotation on an all-static size: a closed constant, inside the fragment
+        { name := "$size", anon := false, cond := .const (.bool true),
+          kind := .virt (.fold (.int 2) (.op .max (.cons (.const (.int 0))
+            (.cons (sizeClause (.const (.bool true)) (.const (.int 0)) (.const (.int 1)))
+              (.cons (sizeClause (.const (.bool true)) (.const (.int 1)) (.const (.int 1))) .nil))))) none } ] }
 
 /-- `struct Out: 0 [+1] UInt n / if n > 0: n [+2] In(n) in / let v = in.s / n+2 [+n] UInt:8[] arr` -/
 def exOuterN : Field :=
@@ -623,6 +629,8 @@ example :
     (G exNest 6).has (rootView exOuter [] [0]) ["in"] = some false ∧
     (G exNest 6).read (rootView exOuter [] [0]) ["in", "one"] = some (.int 1) ∧
     (G exNest 6).read (rootView exOuter [] [0]) ["in", "k"] = none ∧
+    need exNest 6 exOuter ["in", "$size"] = true ∧
+    (G exNest 6).read (rootView exOuter [] [0]) ["in", "$size"] = some (.int 2) ∧
     need exNest 4 exFlat ["v"] = true ∧
     (G exNest 4).read (rootView exFlat [.int 7] [1, 0, 254]) ["v"] = some (.int 5) ∧
     (G exNest 4).read (rootView exFlat [.int 7] [1, 0, 254]) ["$size"] = some (.int 3) ∧
